@@ -275,7 +275,7 @@ class _Shard(threading.Thread):
             if self.stack_mib:
                 cmd += ["--stack-mib", str(self.stack_mib)]
             with open(err_path, "wb") as ef:
-                p = subprocess.Popen(cmd, env=env, stdout=subprocess.DEVNULL, stderr=ef)
+                p = subprocess.Popen(cmd, env=env, stdout=subprocess.DEVNULL, stderr=ef, cwd=env.get("VERIF_CWD") or None)
                 last_size = -1
                 last_change = time.time()
                 timed_out = False
@@ -390,7 +390,7 @@ def run_cases(variant, cases, workdir, label="run", nshards=None, case_timeout=2
             r = sh.results.get(local)
             results[k] = r if r is not None else {"missing": True}
         san.extend(sh.results.get("_sanitizer", []))
-    if MIRROR is not None and variant == "dbg" and not label.endswith("-mirror") and not cov_dir:
+    if MIRROR is not None and variant == "dbg" and not label.endswith("-mirror") and not cov_dir and not (extra_env or {}).get("VERIF_CWD"):
         _mirror(cases, results, workdir, label, case_timeout, stack_mib, extra_env)
     slow = [k for k, r in enumerate(results) if isinstance(r, dict) and "timeout" in r]
     if slow and confirm_timeouts:
@@ -418,6 +418,7 @@ MIRROR = None  # {"stride": k, "max_cases": n}
 MIRROR_DIFFS = []  # (label, case, debug record, release record, first differing path)
 MIRROR_STATS = {"cases_mirrored": 0, "records_compared": 0, "skipped_crash_or_panic": 0}
 _VOLATILE = ("ms", "wall", "wall_s", "elapsed_ms", "pid")
+ALT_ENV = {"TZ": "Australia/Lord_Howe", "LC_ALL": "tr_TR.UTF-8", "LANG": "tr_TR.UTF-8", "LANGUAGE": "tr", "VERIF_CWD": "/"}
 
 
 def _strip_volatile(x):
@@ -470,19 +471,29 @@ def _mirror(cases, results, workdir, label, case_timeout, stack_mib, extra_env):
     except Inconclusive:
         MIRROR_STATS["release_build_unavailable"] = True
         return
-    again, _ = run_cases("rel", [cases[k] for k in idx], workdir, label=label + "-mirror", case_timeout=max(case_timeout, 60.0), stack_mib=stack_mib, extra_env=extra_env)
-    MIRROR_STATS["cases_mirrored"] += len(idx)
-    for k, r in zip(idx, again):
-        if not isinstance(r, dict) or _has_fault(r):
-            MIRROR_STATS["skipped_crash_or_panic"] += 1
-            continue
-        a, b = _strip_volatile(results[k]), _strip_volatile(r)
-        a.pop("i", None)  # position of the case within its shard
-        b.pop("i", None)
-        MIRROR_STATS["records_compared"] += 1
-        d = _first_diff(a, b)
-        if d and len(MIRROR_DIFFS) < 200:
-            MIRROR_DIFFS.append((label, cases[k], a, b, d))
+    replicas = [("rel", "rel", extra_env)]
+    if MIRROR.get("environment"):
+        # the same DEBUG build in another process environment: a time zone with a 30-minute daylight-saving shift and an
+        # odd base offset, a locale with unusual case mapping, another working directory. Nothing these checks generate reads
+        # the clock, and none of them mixes date-times with and without a zone (the one place where the repository
+        # consults the process's time zone), so the records must be identical.
+        env2 = dict(extra_env or {})
+        env2.update(ALT_ENV)
+        replicas.append(("env", "dbg", env2))
+    for tag, variant, env in replicas:
+        again, _ = run_cases(variant, [cases[k] for k in idx], workdir, label=label + "-" + tag + "-mirror", case_timeout=max(case_timeout, 60.0), stack_mib=stack_mib, extra_env=env)
+        MIRROR_STATS["cases_mirrored" if tag == "rel" else "cases_mirrored_in_another_environment"] = MIRROR_STATS.get("cases_mirrored" if tag == "rel" else "cases_mirrored_in_another_environment", 0) + len(idx)
+        for k, r in zip(idx, again):
+            if not isinstance(r, dict) or _has_fault(r):
+                MIRROR_STATS["skipped_crash_or_panic"] += 1
+                continue
+            a, b = _strip_volatile(results[k]), _strip_volatile(r)
+            a.pop("i", None)  # position of the case within its shard
+            b.pop("i", None)
+            MIRROR_STATS["records_compared"] += 1
+            d = _first_diff(a, b)
+            if d and len(MIRROR_DIFFS) < 200:
+                MIRROR_DIFFS.append((label, cases[k], a, b, d, tag))
 
 
 def run_single(variant, case, workdir, label="single", case_timeout=300.0, stack_mib=None):
